@@ -439,11 +439,18 @@ class Evaluator:
             if r.exact is not None:
                 # a - c == a + (2**32 - c) modulo 2**32; the actual value may be negative: width unknown
                 return T(mk_ac("add", [l.t, const(-r.exact)]), None)
+            if l.t == ("sym", "len"):
+                # len - (len & m) clears the bits of m: len & ~m (0 <= len < 2**32)
+                for m in (1, 3, 7, 15):
+                    if r.t == mk_and(l.t, m):
+                        return T(mk_and(l.t, 0xFFFFFFFF & ~m), 32)
         if isinstance(op, ast.Mod) and r.exact is not None and r.exact > 0:
             c = r.exact
             if c & (c - 1) == 0:
                 # x % 2**k on a non-negative int is a mask
                 k = c.bit_length() - 1
+                if l.t == ("sym", "len") and self.len_low2 is not None and c <= 4:
+                    return tconst(self.len_low2 & (c - 1))  # the assumption about the low bits of the length
                 return T(mk_and(l.t, c - 1) if k <= 32 else l.t, k if l.w is None else min(l.w, k))
             # a genuinely different function of x (interpreted operator, not an unknown one)
             return T(("mod", l.t, c), c.bit_length())
